@@ -106,7 +106,7 @@ CLS = {'int': int, 'float': float, 'str': str, 'list': list, 'bool': bool, 'dict
 
 # assert_type / assert_not_type: expected types by name (the implementation runner holds the same table)
 TYPE_NAMES = ['int', 'float', 'bool', 'str', 'list', 'tuple', 'dict', 'set', 'None', 'list[int]', 'list[str]', 'set[int]', 'dict[str,int]',
-              'tuple[int,str]', 'Dog', 'Point', 'bytes']
+              'tuple[int,str]', 'tuple[str,int]', 'Dog', 'Point', 'bytes', "'list[int]'", "'tuple[int, str]'", "'int'"]
 PLAIN = {'int': int, 'float': float, 'bool': bool, 'str': str, 'list': list, 'tuple': tuple, 'dict': dict, 'set': set, 'Dog': Dog, 'Point': Point,
          'bytes': bytes}
 
@@ -114,6 +114,9 @@ PLAIN = {'int': int, 'float': float, 'bool': bool, 'str': str, 'list': list, 'tu
 def type_relation(a, tname):
     """is the value of that type?  True / False where there is no room for interpretation, None otherwise (a container with
     elements of several types, a tuple of another length)"""
+    if tname.startswith("'"):
+        # the same type written as a string (evaluated by pedal in the student's namespace)
+        return type_relation(a, tname.strip("'").replace(', ', ','))
     if tname == 'None':
         return a is None
     if tname in PLAIN:
@@ -127,8 +130,16 @@ def type_relation(a, tname):
         return True if all(type(x) is str for x in a) else None
     if tname == 'dict[str,int]':
         return True if all(type(k) is str and type(v) is int for k, v in a.items()) else None
-    if tname == 'tuple[int,str]':
-        return True if len(a) == 2 and type(a[0]) is int and type(a[1]) is str else None
+    if tname in ('tuple[int,str]', 'tuple[str,int]'):
+        want = (int, str) if tname == 'tuple[int,str]' else (str, int)
+        if len(a) != 2:
+            return None
+        if type(a[0]) is want[0] and type(a[1]) is want[1]:
+            return True
+        # an element of the exact OTHER type of the two is certainly not of the expected one
+        if type(a[0]) is want[1] and type(a[1]) is want[0]:
+            return False
+        return None
     return None
 
 
@@ -148,7 +159,12 @@ def spec_equal(a, b, exact=False, delta=0.001):
         if isinstance(a, float) or isinstance(b, float):
             if a != a or b != b:
                 return False
-            return abs(a - b) < delta
+            if a == b:
+                return True          # also two infinities
+            try:
+                return abs(a - b) < delta
+            except OverflowError:
+                return False         # an int beyond the floats
         return a == b
     if dataclasses.is_dataclass(a) and dataclasses.is_dataclass(b):
         return a == b      # instances: Python's own (generated) equality
@@ -529,8 +545,12 @@ def coq_scalar(v, ids):
     if isinstance(v, bool):
         return '(SBool %s)' % vlib.cbool(v)
     if isinstance(v, int):
+        if abs(v) > 10 ** 30:
+            raise NotInUniverse('an int beyond the floats')   # the model has no overflow
         return '(SInt (%d)%%Z)' % v
     if isinstance(v, float):
+        if v in (float('inf'), float('-inf')) or abs(v) > 1e300:
+            raise NotInUniverse(repr(v))        # the model's floats are rationals
         return 'SNaN' if v != v else '(SFloat %s)' % coq_q(v)
     if isinstance(v, str):
         ex = ids['exact'].setdefault(v, len(ids['exact']))
